@@ -231,6 +231,7 @@ type path struct {
 	tip    chainhash.Hash
 	times  []int64 // timestamps, genesis first
 	hashes []chainhash.Hash
+	blocks []*wire.MsgBlock // the blocks above genesis, in order
 	utxo   map[wire.OutPoint]coin
 }
 
@@ -242,7 +243,8 @@ func newPath(v variant) *path {
 
 func (p *path) clone() *path {
 	q := &path{v: p.v, height: p.height, tip: p.tip, times: append([]int64(nil), p.times...),
-		hashes: append([]chainhash.Hash(nil), p.hashes...), utxo: make(map[wire.OutPoint]coin, len(p.utxo))}
+		hashes: append([]chainhash.Hash(nil), p.hashes...), blocks: append([]*wire.MsgBlock(nil), p.blocks...),
+		utxo: make(map[wire.OutPoint]coin, len(p.utxo))}
 	for k, c := range p.utxo {
 		q.utxo[k] = c
 	}
@@ -291,6 +293,7 @@ func (p *path) apply(b *wire.MsgBlock) {
 	p.tip = b.BlockHash()
 	p.times = append(p.times, b.Header.Timestamp.Unix())
 	p.hashes = append(p.hashes, p.tip)
+	p.blocks = append(p.blocks, b)
 }
 
 func classify(s []byte) kind {
